@@ -98,6 +98,58 @@ func (c *conditionLocker) waitIfLock() {
 	c.lockMu.Unlock()
 }
 
+// requestGate holds back new requests while the security token is renewed.
+// Unlike conditionLocker its wait can be given up: a caller that finds the
+// gate locked waits until the gate opens, its context ends or its timeout
+// elapses, whichever happens first.
+type requestGate struct {
+	mu sync.Mutex
+	ch chan struct{} // non-nil while the gate is locked, closed by unlock
+}
+
+func (g *requestGate) lock() {
+	g.mu.Lock()
+	if g.ch == nil {
+		g.ch = make(chan struct{})
+	}
+	g.mu.Unlock()
+}
+
+func (g *requestGate) unlock() {
+	g.mu.Lock()
+	if g.ch != nil {
+		close(g.ch)
+		g.ch = nil
+	}
+	g.mu.Unlock()
+}
+
+// wait returns nil as soon as the gate is open, ctx.Err() when ctx ends
+// first and ua.StatusBadTimeout when d elapses first.
+func (g *requestGate) wait(ctx context.Context, d time.Duration) error {
+	var timer *time.Timer
+	for {
+		g.mu.Lock()
+		ch := g.ch
+		g.mu.Unlock()
+		if ch == nil {
+			return nil
+		}
+		if timer == nil {
+			timer = time.NewTimer(d)
+			defer timer.Stop()
+		}
+		select {
+		case <-ch:
+			// opened; look again, another renewal may have locked it meanwhile
+		case <-ctx.Done():
+			return ctx.Err()
+		case <-timer.C:
+			return ua.StatusBadTimeout
+		}
+	}
+}
+
 type SecureChannel struct {
 	endpointURL string
 
@@ -127,7 +179,7 @@ type SecureChannel struct {
 	instancesMu    sync.Mutex
 
 	// prevent sending msg when secure channel renewal occurs
-	reqLocker  *conditionLocker
+	reqLocker  *requestGate
 	rcvLocker  *conditionLocker
 	pendingReq sync.WaitGroup
 
@@ -230,7 +282,7 @@ func newSecureChannel(endpoint string, c *uacp.Conn, cfg *Config, kind channelKi
 		// secureChannelID: secureChannelID,
 		// sequenceNumber:  sequenceNumber,
 		// securityTokenID: securityTokenID,
-		reqLocker:    newConditionLocker(),
+		reqLocker:    &requestGate{},
 		rcvLocker:    newConditionLocker(),
 		errch:        errCh,
 		closing:      make(chan struct{}),
@@ -1062,7 +1114,17 @@ func (s *SecureChannel) SendRequest(ctx context.Context, req ua.Request, authTok
 }
 
 func (s *SecureChannel) SendRequestWithTimeout(ctx context.Context, req ua.Request, authToken *ua.NodeID, timeout time.Duration, h ResponseHandler) error {
-	s.reqLocker.waitIfLock()
+	// A request that arrives during a token renewal waits for it, but not beyond
+	// its own context or timeout; the time spent waiting counts against the timeout.
+	start := time.Now()
+	if err := s.reqLocker.wait(ctx, timeout+timeoutLeniency); err != nil {
+		return err
+	}
+	if waited := time.Since(start); timeout > 0 && waited > time.Millisecond {
+		if timeout -= waited; timeout <= 0 {
+			return ua.StatusBadTimeout
+		}
+	}
 	verifPoint("send.gate", s)
 	active, err := s.getActiveChannelInstance()
 	if err != nil {
